@@ -119,6 +119,28 @@ func (w *world) fieldSites() []fieldSite {
 			out = append(out, fieldSite{fmt.Sprintf("server %s udp[%d]", s.name, j), "udpl", l.f, names})
 		}
 	}
+	for _, s := range w.servers {
+		if s.proto == "http" && s.tls == nil {
+			if s.hf == nil {
+				s.hf = fields{}
+			}
+			out = append(out, fieldSite{"server " + s.name + " http", "httpsrv", s.hf, allNames("httpsrv")})
+		}
+	}
+	for _, c := range w.clients {
+		if c.proto == "http" && c.tls == nil {
+			if c.hf == nil {
+				c.hf = fields{}
+			}
+			out = append(out, fieldSite{"client " + c.name + " http", "httpcli", c.hf, allNames("httpcli")})
+		}
+	}
+	if w.certs == nil {
+		if w.rootF == nil {
+			w.rootF = fields{}
+		}
+		out = append(out, fieldSite{"root", "root", w.rootF, allNames("root")})
+	}
 	for _, c := range w.clients {
 		names := allNames("client", "allowSegmentedFixedLengthHeader", "paddingPolicy", "slidingWindowFilterSize")
 		if keyLen(c.proto) > 0 {
@@ -164,9 +186,18 @@ func TestDefaultsExhaustive(t *testing.T) {
 		"full":        fullWorld,
 		"legacy-2022": func() *world { return baseWorld("2022-blake3-aes-256-gcm", true) },
 		"legacy-s5":   func() *world { return baseWorld("socks5", true) },
+		"http-chain": func() *world {
+			w := tlsBase() // its second chain is an HTTP proxy server and client without TLS
+			w.certs = nil
+			w.servers[0].tls, w.clients[1].tls = nil, nil
+			for _, s := range w.servers {
+				s.tcp[0].f = fields{} // the baseline of the enumeration is "everything omitted"
+			}
+			return w
+		},
 	}
 	var failures []string
-	names := []string{"full", "legacy-2022", "legacy-s5"}
+	names := []string{"full", "legacy-2022", "legacy-s5", "http-chain"}
 	for _, wn := range names {
 		mk := worlds[wn]
 		base := mk()
@@ -516,7 +547,9 @@ var recBoundary = ev.New("C18", "boundaries-exhaustive",
 		"then every injected violation (all key-length, natTimeout, MTU, dangling-reference, duplicate-name, range mutations) applied one at a time to 7 hand-built "+
 		"base worlds and to generated base worlds (25 in quick, 150 in thorough). Expected accept/refuse comes from the table and, independently, from the validator; both must agree with Manager(). Non-trivial: every case.").
 	Require("table:accept", "table:refuse", "inject:key-length", "inject:nat-timeout", "inject:mtu", "inject:dangling", "inject:duplicate", "inject:duplicate-set",
-		"inject:range", "hand-built-base")
+		"inject:range", "hand-built-base", "inject:tls-incomplete", "inject:cert-file",
+		"inject:dangling/http-server-certList", "inject:dangling/http-server-clientCAs", "inject:dangling/http-client-rootCAs", "inject:dangling/http-client-certList",
+		"inject:duplicate/dup-cert-list", "inject:duplicate/dup-cert-pool")
 
 func TestBoundariesExhaustive(t *testing.T) {
 	recBoundary.Exhaustive(true)
@@ -562,7 +595,7 @@ func TestBoundariesExhaustive(t *testing.T) {
 		name string
 		mk   func() *world
 	}
-	bases := []baseMaker{{"full", fullWorld}}
+	bases := []baseMaker{{"full", fullWorld}, {"tls", tlsBase}}
 	for _, p := range []string{"2022-blake3-aes-128-gcm", "2022-blake3-aes-256-gcm", "socks5"} {
 		for _, legacy := range []bool{false, true} {
 			bases = append(bases, baseMaker{fmt.Sprintf("base-%s-legacy=%v", p, legacy), func() *world { return baseWorld(p, legacy) }})
